@@ -231,6 +231,9 @@ type c02Hist struct {
 	Suite uint16 `json:"suite"`
 	First int    `json:"first"`
 	Certs string `json:"certs"`
+	// CB: the verifying configuration also has callbacks that accept everything:
+	// 1 VerifyConnection, 2 VerifyPeerCertificate, 3 both (they add checks, they never replace the built-in ones)
+	CB int `json:"cb,omitempty"`
 }
 
 func c02HistoryRun(h c02Hist) (sig, msg string, resumed bool) {
@@ -260,6 +263,12 @@ func c02HistoryRun(h c02Hist) (sig, msg string, resumed bool) {
 	c2 := &Config{Time: vfTime, RootCAs: p.A.pool, ServerName: name, CipherSuites: []uint16{h.Suite}, SessionCache: cache,
 		Certificates: []Certificate{p.CliSig, p.CliEnc}}
 	c1 := c2.Clone()
+	if h.CB&1 != 0 {
+		c2.VerifyConnection = func(ConnectionState) error { return nil }
+	}
+	if h.CB&2 != 0 {
+		c2.VerifyPeerCertificate = func([][]byte, [][]*x509.Certificate) error { return nil }
+	}
 	c1.InsecureSkipVerify = true
 	if h.First == 1 {
 		// where possible the first configuration verifies too, in a setting in which the certificates pass
@@ -370,7 +379,7 @@ func TestVF_C02(t *testing.T) {
 				if !vfMine(idx) {
 					continue
 				}
-				h := c02Hist{Suite: suite, First: first, Certs: certs}
+				h := c02Hist{Suite: suite, First: first, Certs: certs, CB: idx % 4}
 				if certs != "honest" && vfKnown("F13") {
 					rec.Excluded("F13")
 					continue
